@@ -51,34 +51,46 @@ type c16Schedule struct {
 // vulnerabilities as well"), several of them spawned at once.
 func genChainScenario(t *rapid.T) universe.Scenario {
 	libs := []string{"liba", "libb", "libc", "libd", "libe"}
-	n := rapid.IntRange(3, 7).Draw(t, "chain_versions")
-	schema := []string{"top"}
+	tops := []string{"top"}
+	if rapid.Bool().Draw(t, "two_tops") {
+		// two direct dependencies with their own chains: two initial attempts whose results
+		// both spawn follow-up attempts
+		tops = append(tops, "side")
+	}
+	var schema []string
+	var deps []universe.Requirement
 	used := map[string]bool{}
-	for k := 1; k <= n; k++ {
-		schema = append(schema, fmt.Sprintf("  %d.0.0", k))
-		var set []string
-		switch {
-		case k == 1:
-			set = []string{rapid.SampledFrom(libs).Draw(t, "lib1")}
-		case k == n:
-			// the last version is clean
-		default:
-			m := rapid.IntRange(0, 2).Draw(t, "n_libs")
-			for i := 0; i < m; i++ {
-				l := rapid.SampledFrom(libs).Draw(t, "lib")
-				dup := false
-				for _, x := range set {
-					dup = dup || x == l
-				}
-				if !dup {
-					set = append(set, l)
+	for ti, top := range tops {
+		n := rapid.IntRange(3, 6).Draw(t, "chain_versions")
+		schema = append(schema, top)
+		for k := 1; k <= n; k++ {
+			schema = append(schema, fmt.Sprintf("  %d.0.0", k))
+			var set []string
+			switch {
+			case k == 1:
+				// the two tops start from different libraries, so there are two initial vulnerabilities
+				set = []string{libs[(ti*2+rapid.IntRange(0, 1).Draw(t, "lib1"))%len(libs)]}
+			case k == n:
+				// the last version is clean
+			default:
+				m := rapid.IntRange(0, 2).Draw(t, "n_libs")
+				for i := 0; i < m; i++ {
+					l := rapid.SampledFrom(libs).Draw(t, "lib")
+					dup := false
+					for _, x := range set {
+						dup = dup || x == l
+					}
+					if !dup {
+						set = append(set, l)
+					}
 				}
 			}
+			for _, l := range set {
+				used[l] = true
+				schema = append(schema, fmt.Sprintf("    %s@^1.0.0", l))
+			}
 		}
-		for _, l := range set {
-			used[l] = true
-			schema = append(schema, fmt.Sprintf("    %s@^1.0.0", l))
-		}
+		deps = append(deps, universe.Requirement{Name: top, Req: "^1.0.0"})
 	}
 	var vulns []universe.OSV
 	for i, l := range libs {
@@ -92,7 +104,7 @@ func genChainScenario(t *rapid.T) universe.Scenario {
 	}
 	return universe.Scenario{
 		Universe: universe.Universe{System: universe.NPM, Schema: schema},
-		Manifest: universe.Manifest{System: universe.NPM, Name: "verif-root", Version: "1.0.0", Deps: []universe.Requirement{{Name: "top", Req: "^1.0.0"}}},
+		Manifest: universe.Manifest{System: universe.NPM, Name: "verif-root", Version: "1.0.0", Deps: deps},
 		Vulns:    vulns,
 		Levels:   universe.Levels{Default: "major"},
 	}
